@@ -139,7 +139,8 @@ def check(case, rec):
             with open(idp, "w", encoding="utf8") as f:
                 f.write("#comment line\n" + "\n".join(request) + "\n")
             out = os.path.join(d, "out.biom")
-            from biom.cli.table_subsetter import subset_table
+            from ..cli import command
+            subset_table = command("subset-table")
             if variant == "cli_hdf5":
                 args = ["-i", h5p]
             else:
